@@ -98,7 +98,11 @@ func parseRoutes(c *config.C, networks []netip.Prefix) ([]Route, error) {
 
 		mtu, ok := rMtu.(int)
 		if !ok {
-			mtu, err = strconv.Atoi(rMtu.(string))
+			sMtu, isString := rMtu.(string)
+			if !isString {
+				return nil, fmt.Errorf("entry %v.mtu in tun.routes is not an integer: found %T", i+1, rMtu)
+			}
+			mtu, err = strconv.Atoi(sMtu)
 			if err != nil {
 				return nil, fmt.Errorf("entry %v.mtu in tun.routes is not an integer: %v", i+1, err)
 			}
@@ -174,7 +178,11 @@ func parseUnsafeRoutes(c *config.C, networks []netip.Prefix) ([]Route, error) {
 		if rMtu, ok := m["mtu"]; ok {
 			mtu, ok = rMtu.(int)
 			if !ok {
-				mtu, err = strconv.Atoi(rMtu.(string))
+				sMtu, isString := rMtu.(string)
+				if !isString {
+					return nil, fmt.Errorf("entry %v.mtu in tun.unsafe_routes is not an integer: found %T", i+1, rMtu)
+				}
+				mtu, err = strconv.Atoi(sMtu)
 				if err != nil {
 					return nil, fmt.Errorf("entry %v.mtu in tun.unsafe_routes is not an integer: %v", i+1, err)
 				}
@@ -192,8 +200,12 @@ func parseUnsafeRoutes(c *config.C, networks []netip.Prefix) ([]Route, error) {
 
 		metric, ok := rMetric.(int)
 		if !ok {
+			sMetric, isString := rMetric.(string)
+			if !isString {
+				return nil, fmt.Errorf("entry %v.metric in tun.unsafe_routes is not an integer: found %T", i+1, rMetric)
+			}
 			var parsed int64
-			parsed, err = strconv.ParseInt(rMetric.(string), 10, 32)
+			parsed, err = strconv.ParseInt(sMetric, 10, 32)
 			if err != nil {
 				return nil, fmt.Errorf("entry %v.metric in tun.unsafe_routes is not an integer: %v", i+1, err)
 			}
@@ -250,8 +262,12 @@ func parseUnsafeRoutes(c *config.C, networks []netip.Prefix) ([]Route, error) {
 
 				gatewayWeight, ok := rGatewayWeight.(int)
 				if !ok {
+					sWeight, isString := rGatewayWeight.(string)
+					if !isString {
+						return nil, fmt.Errorf("entry .weight in tun.unsafe_routes[%v].via[%v] is not an integer", i+1, ig+1)
+					}
 					var parsed int64
-					parsed, err = strconv.ParseInt(rGatewayWeight.(string), 10, 32)
+					parsed, err = strconv.ParseInt(sWeight, 10, 32)
 					if err != nil {
 						return nil, fmt.Errorf("entry .weight in tun.unsafe_routes[%v].via[%v] is not an integer", i+1, ig+1)
 					}
